@@ -221,12 +221,12 @@ func propC06(c *Ctx) {
 			}
 		}
 		c.writersTable("C06.R2", "opchild/keeper.Keeper", "NextL1Sequence", setOf("Set", "Next", "Remove", "Clear"),
-			[]string{"(opchild/keeper.Keeper).IncreaseNextL1Sequence", "(opchild/keeper.Keeper).InitGenesis"})
+			[]string{"(opchild/keeper.MsgServer).FinalizeTokenDeposit", "(opchild.AppModule).InitGenesis"})
 		eff := c.W.BuildEffects()
 		o3 := c.Ob("C06.R2", "SetNextL1Sequence only from InitGenesis; IncreaseNextL1Sequence only from FinalizeTokenDeposit")
 		for _, f := range eff.Callers(c.Method(childKeeper, "Keeper", "SetNextL1Sequence")) {
 			o3.Sites++
-			if fnShort(f) != "(opchild/keeper.Keeper).InitGenesis" {
+			if fnShort(f) != "(opchild.AppModule).InitGenesis" {
 				o3.Fail(c.W.Pos(f.Pos()), "SetNextL1Sequence called from "+fnShort(f), nil)
 			}
 		}
@@ -858,14 +858,14 @@ func propC09(c *Ctx) {
 	c.Rule("C09.R1", func() {
 		o := c.Ob("C09.R1", "opchild bank mutator sites equal the table")
 		allowed := map[string]int{
-			"(opchild/keeper.MsgServer).FinalizeTokenDeposit|MintCoins":                           1,
-			"(opchild/keeper.MsgServer).FinalizeTokenDeposit|SendCoinsFromModuleToAccount":        1,
+			"(opchild/keeper.MsgServer).FinalizeTokenDeposit|MintCoins":                       1,
+			"(opchild/keeper.MsgServer).FinalizeTokenDeposit|SendCoinsFromModuleToAccount":    1,
 			"(opchild/keeper.MsgServer).SpendFeePool|SendCoinsFromModuleToAccount":            1,
 			"(opchild/keeper.MsgServer).InitiateTokenWithdrawal|SendCoinsFromAccountToModule": 1,
 			"(opchild/keeper.MsgServer).InitiateTokenWithdrawal|BurnCoins":                    1,
 			"(opchild/keeper.MsgServer).FinalizeTokenDeposit|SendCoinsFromAccountToModule":    1,
 			"(opchild/keeper.MsgServer).FinalizeTokenDeposit|BurnCoins":                       1,
-			"(opchild/keeper.MsgServer).FinalizeTokenDeposit|SetDenomMetaData":                       1,
+			"(opchild/keeper.MsgServer).FinalizeTokenDeposit|SetDenomMetaData":                1,
 		}
 		seen := map[string]int{}
 		for _, s := range eff.Where(func(s *Site) bool {
@@ -1010,7 +1010,7 @@ func propC09(c *Ctx) {
 
 	c.Rule("C09.R3", func() {
 		c.writersTable("C09.R3", "opchild/keeper.Keeper", "DenomPairs", setOf("Set", "Remove", "Clear"),
-			[]string{"(opchild/keeper.MsgServer).FinalizeTokenDeposit", "(opchild/keeper.Keeper).InitGenesis"})
+			[]string{"(opchild/keeper.MsgServer).FinalizeTokenDeposit", "(opchild.AppModule).InitGenesis"})
 		c.noCollSites("C09.R3", "opchild/keeper.Keeper", "DenomPairs", setOf("Remove", "Clear"))
 		fn := childHandler(c, "FinalizeTokenDeposit")
 		o := c.Ob("C09.R3", "FinalizeTokenDeposit: DenomPairs.Set(req.Amount.Denom, req.BaseDenom) only when Has(same key) is false")
@@ -1059,7 +1059,7 @@ func propC09(c *Ctx) {
 
 	c.Rule("C09.R4", func() {
 		c.writersTable("C09.R4", "opchild/keeper.Keeper", "NextL2Sequence", setOf("Set", "Next", "Remove", "Clear"),
-			[]string{"(opchild/keeper.Keeper).IncreaseNextL2Sequence", "(opchild/keeper.Keeper).InitGenesis"})
+			[]string{"(opchild/keeper.MsgServer).FinalizeTokenDeposit", "(opchild/keeper.MsgServer).InitiateTokenWithdrawal", "(opchild.AppModule).InitGenesis"})
 		o := c.Ob("C09.R4", "callers of IncreaseNextL2Sequence = {InitiateTokenWithdrawal, FinalizeTokenDeposit}; SetNextL2Sequence only from InitGenesis")
 		al := setOf("(opchild/keeper.MsgServer).InitiateTokenWithdrawal", "(opchild/keeper.MsgServer).FinalizeTokenDeposit")
 		seen := map[string]bool{}
@@ -1077,7 +1077,7 @@ func propC09(c *Ctx) {
 		}
 		for _, f := range eff.Callers(c.Method(childKeeper, "Keeper", "SetNextL2Sequence")) {
 			o.Sites++
-			if fnShort(f) != "(opchild/keeper.Keeper).InitGenesis" {
+			if fnShort(f) != "(opchild.AppModule).InitGenesis" {
 				o.Fail(c.W.Pos(f.Pos()), "SetNextL2Sequence called from "+fnShort(f), nil)
 			}
 		}
